@@ -5,7 +5,7 @@
     k_exp or on the reference area.  The closed forms of the canonical mixes, the range [0,1] for
     consistent demands and the invariance under non-EPB / other services' consumption are decided by
     the differential run (partial claim, see MANIFEST). *)
-From Cteepbd Require Import Model.Balance Model.Cte Proofs.EpFacts Props.C04.
+From Cteepbd Require Import Model.Balance Model.Cte Proofs.EpFacts Proofs.CteFacts Props.C04.
 Open Scope Qc_scope.
 
 Theorem C15_no_demand : forall ep, nd_ACS (ep_needs ep) = None -> fraccion_renovable_acs_nrb ep = Err WrongInput.
@@ -66,8 +66,27 @@ Proof.
   destruct (qltb_spec (qabs (qsum v)) f32_epsilon); [contradiction|]. reflexivity.
 Qed.
 
+(** closed form, for any DHW supply without electricity, ambient heat or biomass (solar thermal, district networks,
+    fuel boilers): the fraction is the renewable part of what the nearby carriers supply for DHW, over the demand *)
+Theorem C15_nearby_supply_closed_form : forall ep v,
+  nd_ACS (ep_needs ep) = Some v -> ~ qabs (qsum v) < f32_epsilon ->
+  dhw_used_by_cr ep <> nil ->
+  aget (dhw_used_by_cr ep) ELECTRICIDAD = None -> aget (dhw_used_by_cr ep) EAMBIENTE = None ->
+  aget (dhw_used_by_cr ep) BIOMASA = None -> aget (dhw_used_by_cr ep) BIOMASADENSIFICADA = None ->
+  t_used_src_srv_opt ep EL_INSITU ACS = 0 ->
+  fraccion_renovable_acs_nrb ep = (do nb <- q_nrb_non_biomass (ep_factors ep) (dhw_used_by_cr ep); Ok (snd nb / qsum v)).
+Proof. intros. eapply dhw_nearby_supply; eassumption. Qed.
+
+(** solar thermal + boiler: solar energy used for DHW / DHW demand *)
+Theorem C15_solar_boiler : forall fs S cr G,
+  cr_is_nearby cr = false -> look fs TERMOSOLAR RED SUMINISTRO STEP_A = Some (mkRNC 1 0 0) ->
+  q_nrb_non_biomass fs [(TERMOSOLAR, S); (cr, G)] = Ok (S, S).
+Proof. exact q_nrb_solar_fuel. Qed.
+
 Print Assumptions C15_no_demand.
 Print Assumptions C15_zero_demand.
 Print Assumptions C15_k_independent.
 Print Assumptions C15_area_independent.
 Print Assumptions C15_no_dhw_use.
+Print Assumptions C15_nearby_supply_closed_form.
+Print Assumptions C15_solar_boiler.
